@@ -175,7 +175,8 @@ func runUfsX(c *Case, res *result) (err error) {
 	g0 := libGors()
 	u := new(go9p.Ufs)
 	u.Dotu, u.Id, u.Root, u.Msize, u.Maxpend, u.Log = true, "ufs", root, 8192, c.Maxpend, sharedLog
-	if !u.Start(u) {
+	uo := newUfsOps(u)
+	if !u.Start(uo) {
 		return &hangError{"harness: Ufs.Start failed"}
 	}
 	dial := func(name string) *xport.End { return ufsrv.Conn(u, name) }
@@ -623,7 +624,7 @@ steps:
 			}
 		}
 	}
-	return (&ufsEnv{c: c, res: res, k: k, u: u, root: root, by: by, g0: g0, g1: g1, vid: vid}).finish(whos)
+	return (&ufsEnv{c: c, res: res, k: k, u: u, uo: uo, root: root, by: by, g0: g0, g1: g1, vid: vid}).finish(whos)
 }
 
 // ---------------------------------------------------------------------------
